@@ -116,9 +116,17 @@ def generate():
     out.append("Definition entries : list (string * bool) :=\n  [ " + "; ".join('("%s", %s)' % (e[0], "true" if e[1] else "false") for e in entries) + " ].")
     out.append("Definition init_clears : list string := [ " + "; ".join('"%s"' % c for c in clears) + " ].")
     out.append("Definition recursive_parsers : N := %d%%N." % nrec)
+    # the size of nom-recursive's flag word is chosen by a cargo feature of the dependency (sv-parser-parser/Cargo.toml)
+    ct = open("/repo/sv-parser-parser/Cargo.toml").read()
+    m = re.search(r'^nom-recursive\s*=\s*(.*)$', ct, re.M)
+    if not m:
+        raise Shape("sv-parser-parser/Cargo.toml: no nom-recursive dependency")
+    feats = re.findall(r'"(tracer\d+)"', m.group(1))
+    cap = 256 if "tracer256" in feats else 128 if "tracer128" in feats else 64
+    out.append("Definition recursive_capacity : N := %d%%N." % cap)
     text = "\n".join(out) + "\n"
     facts = {"cells": ["%s::%s %s%s" % (c[0], c[1], c[2], " (verif only)" if c[3] else "") for c in cells],
-             "entries": [(e[0], e[1]) for e in entries], "init_clears": clears, "recursive_parsers": nrec,
+             "entries": [(e[0], e[1]) for e in entries], "init_clears": clears, "recursive_parsers": nrec, "recursive_capacity": cap,
              "hash": hashlib.sha256(text.encode()).hexdigest()[:16]}
     return text, facts
 
